@@ -5,6 +5,10 @@ HERE = os.path.dirname(os.path.dirname(os.path.abspath(__file__)))
 
 # id -> (built?, technique, level text, level note, design ref)
 P = {
+ 'C17': (True, 'Coq proof of the greedy rule as a relation (verified boolean checker greedy_ok_b; balance invariants by induction over placements) + correspondence of KAISAAssignment.greedy_assignment (membership in the relation; exhaustive small scope + random large scope)',
+         'Theorems for every assignment accepted by greedy_ok_b (hence every tie-break variant): completeness and confinement to one group, colocation, non-increasing processing order, least-loaded group / least-loaded worker at every placement, worker-load and group-load balance bounds by the largest item, for all disjoint groups and non-negative integer costs. Tie: the implementation output is accepted by the extracted checker on every generated case (fast path equality with the extracted deterministic greedy); purity checked by repeated calls, argument snapshots and different hash seeds.',
+         'Coq kernel; extraction + driver; integer costs (float rounding of non-integer costs not modelled); processing order among tied layers fixed to the stable order. Closed under the global context.',
+         'DESIGN.md §4 C17'),
  'C14': (True, 'Coq proof (induction over rows; any element type) + exhaustive-n correspondence of extracted model with get_triu/fill_triu + simdist guard runs',
          'Theorems for every n and element type: pack/unpack round trip, NoDup/completeness/length n(n+1)/2 of the index list, symmetry of any unpacked matrix, symmetric==dense communication for any elementwise combine, rejection of non-square shapes with no communication. Tie: extracted triu_idx / fill_index_matrix equal torch behaviour for every n<=128 (quick; 512 thorough), bit-exact round trips in 4 dtypes x 3 layouts, guard + element counts of the three communication functions under simdist.',
          'Coq kernel; extraction (ExtrOcamlBasic) + ocaml/driver.ml; simdist; torch.triu_indices/advanced indexing compared not verified. Closed under the global context.',
